@@ -94,6 +94,14 @@ func cmdSigs(args []string) {
 		out[b.File][b.Name] = names
 		if fn.Parent() != nil {
 			out[b.File][b.Name+"#calls"] = callFingerprint(fn)
+			var ps []string
+			for _, prm := range fn.Params {
+				ps = append(ps, prm.Name())
+			}
+			if len(ps) == 0 {
+				ps = []string{"-"}
+			}
+			out[b.File][b.Name+"#params"] = ps
 		}
 	}
 	json.NewEncoder(os.Stdout).Encode(out)
